@@ -47,4 +47,22 @@ TEXT = {
         "note": NOTE,
         "technique": "runtime monitor: online trace checker over decide/pop histories against brute-force entailment, reference propagator and recorded pre-decision states (read-only model hook)",
     },
+    "C07": {
+        "level": "Exploration by runtime monitoring: every count returned by the library on generated BDDs / SDDs / decision-DNNFs in all nine shipped semiring instances is compared for exact equality with the defining sum over models computed from the truth table in exact arithmetic; BDDs also under arbitrary weights against the unsmoothed count; evaluate() against the truth table on every assignment.",
+        "design_ref": "DESIGN.md section 4, C07",
+        "note": NOTE + " Float-backed weights are restricted to dyadic values for which every intermediate result is exactly representable, so equality is exact and order-independent.",
+        "technique": "runtime monitor: exact-arithmetic reference model (brute-force semiring sum over models) over generated diagrams x 9 semirings x weight assignments",
+    },
+    "C08": {
+        "level": "Exploration by runtime monitoring: each smooth() result is checked for function preservation, for the per-path 'each level exactly once, in order' invariant by a structural path walker, and for exact agreement of weighted and unweighted counts with brute force under non-normalised weights; all 3-variable functions x orders enumerated.",
+        "design_ref": "DESIGN.md section 4, C08",
+        "note": NOTE,
+        "technique": "runtime monitor: structural path-invariant walker + exact brute-force counting oracle on smoothed diagrams (bounded-exhaustive + random level-skipping inputs)",
+    },
+    "C13": {
+        "level": "Exploration by runtime monitoring with large exhaustive parts: the algebraic laws are asserted on every triple of finite grids / boundary sets per type and per exported prime, results are compared with independent reference arithmetic, in both build profiles.",
+        "design_ref": "DESIGN.md section 4, C13",
+        "note": NOTE,
+        "technique": "runtime monitor: algebraic-law assertions and reference-arithmetic comparison over exhaustive grids and boundary residues, in overflow-checked and unchecked builds",
+    },
 }
